@@ -7,23 +7,26 @@ import copy
 from rtflite.services.document_service import RTFDocumentService
 PLACE = ["first", "last", "all"]
 
-class Hdr:
-    """deep-copyable stand-in for an RTFColumnHeader (text, border_top)"""
+from vf.fakes import Stub
+class Hdr(Stub):
+    """deep-copyable stand-in for an RTFColumnHeader (text, border_top, col_rel_width); unknown attributes raise
+    Unsupported so that a refactoring which reads more of the header makes the obligation inconclusive, not violated"""
     def __init__(self, text):
-        self.text = text
-        self.border_top = [[""]]
+        Stub.__init__(self, text=text, border_top=[[""]], col_rel_width=None)
+    def __deepcopy__(self, memo):
+        h = Hdr(self.text)
+        h.__dict__.update({k: (list(v) if isinstance(v, list) else v) for k, v in self.__dict__.items()})
+        return h
 
-class _FrameStub:
+class _FrameStub(Stub):
     """stand-in for pl.DataFrame in the auto-header branch: isinstance target and row-oriented constructor"""
     def __init__(self, rows=None, schema=None, orient=None):
-        self.rows = rows
-        self.shape = (len(rows), len(rows[0]) if rows else 0)
+        Stub.__init__(self, rows=rows, shape=(len(rows), len(rows[0]) if rows else 0))
 
 class PageData(_FrameStub):
     """page.data stand-in: the auto-header branch only needs .columns of a frame-like object"""
-    columns = ["a", "b"]
     def __init__(self):
-        pass
+        Stub.__init__(self, columns=["a", "b"], shape=(1, 2))
 
 def reservation_vs_render(h1, h2, as_colheader, needs_header, fn, src, pf, ps, subline, first, last):
     """returns (reserved, emitted repeated table rows) for the SAME document namespace"""
